@@ -297,10 +297,43 @@ def dec_dict(d):
             "rule_id": d.rule_id, "policy_id": d.policy_id, "reason": d.reason}
 
 
-def call_args(req):
+def lit(kind, v):
+    """marker for a value JSON cannot carry (cases stay JSON): materialised just before the implementation sees it"""
+    return {"$lit": [kind, v]}
+
+
+def materialise(x):
+    import datetime as dt
+    from decimal import Decimal
+
+    if isinstance(x, dict):
+        if set(x) == {"$lit"}:
+            kind, v = x["$lit"]
+            if kind == "datetime":
+                return dt.datetime.fromisoformat(v)
+            if kind == "date":
+                return dt.date.fromisoformat(v)
+            if kind == "time":
+                return dt.time.fromisoformat(v)
+            if kind == "decimal":
+                return Decimal(v)
+            if kind == "tuple":
+                return tuple(materialise(y) for y in v)
+            if kind == "set":
+                return set(materialise(y) for y in v)
+            if kind == "bytes":
+                return bytes.fromhex(v)
+            raise ValueError("unknown literal kind " + repr(kind))
+        return {k: materialise(v) for k, v in x.items()}
+    if isinstance(x, list):
+        return [materialise(v) for v in x]
+    return x
+
+
+def call_args(req, lits=False):
     from rbacx.core.model import Action, Context, Resource, Subject
 
-    req = copy.deepcopy(req)
+    req = materialise(req) if lits else copy.deepcopy(req)
     s, r = req["subject"], req["resource"]
     return (Subject(id=s.get("id"), roles=list(s.get("roles") or []), attrs=dict(s.get("attrs") or {})),
             Action(req.get("action")),
@@ -350,7 +383,9 @@ async def run_history(case, clock):
     clock.now = 0.0
     facts = case.get("facts") or []
     cfgs = [case["g1"], case["g2"]]
-    pols = [copy.deepcopy(cfgs[0]["policy"]), copy.deepcopy(cfgs[1]["policy"])]
+    lits = bool(case.get("lits"))
+    fresh_copy = materialise if lits else copy.deepcopy
+    pols = [fresh_copy(cfgs[0]["policy"]), fresh_copy(cfgs[1]["policy"])]
     # collaborators: one relationship checker; one role resolver per guard when the configuration names one.
     # The uncached twin of an evaluation gets the SAME collaborator objects as the guard it mirrors.
     resolvers = [make_resolver(c["resolver"]) if c.get("resolver") is not None else None for c in cfgs]
@@ -370,19 +405,19 @@ async def run_history(case, clock):
             w = op[1]
             n0 = len(cache.gets)
             try:
-                cd = dec_dict(await guards[w].evaluate_async(*call_args(op[2])))
+                cd = dec_dict(await guards[w].evaluate_async(*call_args(op[2], lits)))
             except Exception as e:  # noqa: BLE001
                 cd = ["Raise", type(e).__name__]
             hit = bool(cache.gets[n0:] and cache.gets[-1])
             # the judge: a fresh engine without a cache, same current policy, same type mode, same collaborators
-            fresh = Guard(copy.deepcopy(pols[w]), strict_types=bool(cfgs[w]["strict"]), **collab(w))
+            fresh = Guard(copy.deepcopy(pols[w]), strict_types=bool(cfgs[w]["strict"]), **collab(w))  # deepcopy keeps literals
             try:
-                ud = dec_dict(await fresh.evaluate_async(*call_args(op[2])))
+                ud = dec_dict(await fresh.evaluate_async(*call_args(op[2], lits)))
             except Exception as e:  # noqa: BLE001
                 ud = ["Raise", type(e).__name__]
             out.append({"hit": hit, "cached": cd, "uncached": ud})
         elif k == "p":
-            pols[op[1]] = copy.deepcopy(op[2])
+            pols[op[1]] = fresh_copy(op[2])
             if op[1] == 0 or len(op) < 4:
                 guards[op[1]].set_policy(pols[op[1]])
             else:  # ["p", w, policy, "update"]
@@ -640,6 +675,10 @@ def impl_only(case):
     implementation alone — engine with the cache vs its uncached twin — which is the direct reading of the property"""
     if case["g1"].get("resolver") is not None or case["g2"].get("resolver") is not None:
         return "resolver"
+    if case.get("lits"):
+        return "nonjson"
+    if case.get("judge") == "impl":
+        return case.get("why", "impl-only")
     if has_nonjson([op[2] for op in case["h"] if op[0] == "e"]):
         return "nonjson"
     return None
@@ -648,7 +687,12 @@ def impl_only(case):
 def check_cases(chk, cases, replay=False):
     sort = detect_sort()
     chk.extra["model_switch_sort_keys"] = sort
-    cases = [expand(c) for c in cases]
+    tps = [c for c in cases if c.get("kind") == "tagpair"]
+    if tps:
+        check_tagpairs(chk, tps, replay)
+    cases = [expand(c) for c in cases if c.get("kind") != "tagpair"]
+    if not cases:
+        return
     modelled = [i for i, c in enumerate(cases) if impl_only(c) is None]
     box = {}
 
@@ -709,8 +753,9 @@ def check_cases(chk, cases, replay=False):
                           strip(small), impl=sres, model=m if small is c else None,
                           note="cached vs uncached compared on the implementation alone (theorem c08_transparent is "
                                "what the model proves); outside the class of F16"
-                               + ("; the history carries a value that is not JSON: this is the behaviour of fixed finding F26 "
-                                  "(cache key built with default=str)" if impl_only(c) == "nonjson" else "")
+                               + ("; the history carries a value that is not JSON: in a REQUEST this is the behaviour of fixed "
+                                  "finding F26 (cache key built with default=str); in a POLICY literal it means the policy tag "
+                                  "(etag) no longer separates two policies (hypothesis tag_inj)" if impl_only(c) == "nonjson" else "")
                                + ("; the engines have a role resolver: the uncached twin uses the same resolver object"
                                   if impl_only(c) == "resolver" else ""))
             continue
@@ -962,6 +1007,224 @@ def resolver_random(rng, lo, hi):
             "facts": [], "h": h}
 
 
+# --------------------------------------------------------------------------
+# near-duplicate TEXT: different strings that some normalisation a key function might apply makes equal
+# --------------------------------------------------------------------------
+def surrogate_escaped(t):
+    """the str that bytes.decode('utf-8', 'surrogateescape') yields for t's UTF-8 bytes taken apart: every
+    non-ASCII byte b becomes the lone surrogate U+DC00+b"""
+    return "".join(chr(0xDC00 + b) if b >= 0x80 else chr(b) for b in t.encode("utf-8"))
+
+
+TEXT_PAIRS = [
+    ("surrogateescape", "résumé.txt", surrogate_escaped("résumé.txt")),
+    ("surrogateescape2", "andré", surrogate_escaped("andré")),
+    ("surrogatepass", "\U0001F600", "😀"),                  # astral char vs its two lone surrogates
+    ("lone-surrogate", "a\udc80", "a�"),
+    ("nfc/nfd", "café", "café"),
+    ("nfkc", "ﬁle", "file"),                                      # ligature fi
+    ("case", "Admin", "admin"), ("case2", "STRASSE", "straße"),
+    ("lead-space", " a", "a"), ("trail-space", "a ", "a"), ("inner-space", "a b", "a  b"), ("tab", "a\tb", "a b"),
+    ("nbsp", "a b", "a b"), ("newline", "a\n", "a"), ("nul", "a\x00", "a"),
+    ("fullwidth", "1", "１"), ("zero-width", "a", "a​"), ("bom", "﻿a", "a"),
+    ("escaped-text", "é", "\\u00e9"), ("escaped-quote", 'a"b', 'a\\"b'),
+    ("prefix", "doc", "doc1"), ("prefix2", "ab", "abc"), ("empty", "", " "),
+    ("bytes-repr", "x", "b'x'"), ("quoted", "a", '"a"'), ("json-structure", 'a","b', "a"),
+    ("long-tail", "x" * 300 + "1", "x" * 300 + "2"),                   # a truncating key function
+    ("homoglyph", "a", "а"),
+    ("str/none", "None", None), ("str/true", "True", True), ("str/float", "1.0", 1.0), ("str/int", "1", 1),
+    ("str/list", "a", ["a"]),
+]
+TEXT_SITES = ["rid", "rattr", "sid", "sattr", "role", "ctx", "action", "rtype"]
+
+
+def text_policy(site, literal):
+    """permit exactly when the value at `site` == literal (one literal, compared by == / exact match)"""
+    path = {"rid": "resource.id", "rattr": "resource.attrs.v", "sid": "subject.id", "sattr": "subject.attrs.v",
+            "ctx": "context.v"}.get(site)
+    if path:
+        rule = _rule("t1", "permit", condition={"==": [{"attr": path}, literal]}, obligations=[{"type": "require_mfa"}])
+    elif site == "role":
+        rule = _rule("t1", "permit", condition={"in": [literal, ROLES]})
+    elif site == "action":
+        rule = _rule("t1", "permit", actions=[literal])
+    else:
+        rule = _rule("t1", "permit", resource={"type": literal})
+    return {"algorithm": "first-applicable", "rules": [rule, _rule("t2", "deny", actions=["*"], resource={})]}
+
+
+def text_request(site, v):
+    kw = {"ctx": {"mfa": True}}
+    if site == "rid":
+        kw["rid"] = v
+    elif site == "rattr":
+        kw["rattrs"] = {"v": v}
+    elif site == "sid":
+        kw["sid"] = v
+    elif site == "sattr":
+        kw["sattrs"] = {"v": v}
+    elif site == "role":
+        kw["roles"] = [v, "b"]
+    elif site == "ctx":
+        kw["ctx"] = {"mfa": True, "v": v}
+    elif site == "action":
+        kw["action"] = v
+    else:
+        kw["rtype"] = v
+    return mkreq(**kw)
+
+
+def is_plain_text(x):
+    """only printable ASCII in every string of x (what the model's str()/repr() of containers covers)"""
+    if isinstance(x, str):
+        return all(32 <= ord(ch) < 127 for ch in x)
+    if isinstance(x, (list, tuple)):
+        return all(is_plain_text(y) for y in x)
+    if isinstance(x, dict):
+        return all(is_plain_text(k) and is_plain_text(v) for k, v in x.items())
+    return True
+
+
+def text_cases():
+    n = 0
+    for name, a, b in TEXT_PAIRS:
+        for site in TEXT_SITES:
+            if site in ("role", "action", "rtype") and not (isinstance(a, str) and isinstance(b, str)):
+                continue
+            n += 1
+            pol = text_policy(site, a)
+            ra, rb = text_request(site, a), text_request(site, b)
+            base = {"fam": "text-near-duplicates", "facts": [], "_key": ("text", name, site)}
+            if not (is_plain_text(a) and is_plain_text(b)):
+                # the model's strings are printable text inside containers; judged cached-vs-uncached only
+                base.update({"judge": "impl", "why": "text-not-representable-in-model"})
+            cache = [["lru", BIG], ["dict"], ["pickle"], ["lru", 2]][n % 4]
+            g = {"strict": bool(n % 2), "policy": pol, "ttl": [None, TTL, 300][n % 3]}
+            yield dict(base, cache=cache, g1=g, g2=g, h=[["e", 0, ra], ["e", 0, rb], ["e", 0, ra], ["e", 1, rb]])
+            yield dict(base, cache=cache, g1=g, g2=dict(g, strict=not g["strict"]), _key=("text-rev", name, site),
+                       h=[["e", 0, rb], ["e", 0, ra], ["e", 1, ra], ["e", 1, rb], ["e", 0, rb]])
+
+
+# --------------------------------------------------------------------------
+# the hypothesis tag_inj on the implementation: do two different policies ever get one etag?
+# --------------------------------------------------------------------------
+DT_ISO = "2030-01-01T00:00:00+00:00"
+
+
+def tag_literal_pairs():
+    import datetime as dt
+    from decimal import Decimal
+
+    d_aware = dt.datetime.fromisoformat(DT_ISO)
+    d_naive = dt.datetime(2030, 1, 1, 12, 30)
+    day, tm = dt.date(2026, 3, 1), dt.time(12, 30)
+    return [
+        ("int/float", 1, 1.0), ("int/bool", 1, True), ("int/str", 1, "1"), ("float/str", 1.0, "1.0"),
+        ("bool/str", True, "True"), ("bool/json", True, "true"), ("none/str", None, "None"), ("none/json", None, "null"),
+        ("str/list", "a", ["a"]), ("nfc/nfd", "café", "café"), ("case", "Admin", "admin"),
+        ("escaped-text", "é", "\\u00e9"), ("surrogateescape", "é", surrogate_escaped("é")),
+        ("datetime/str", lit("datetime", DT_ISO), str(d_aware)), ("datetime/iso", lit("datetime", DT_ISO), d_aware.isoformat()),
+        ("datetime/repr", lit("datetime", DT_ISO), repr(d_aware)),
+        ("naive-datetime/str", lit("datetime", d_naive.isoformat()), str(d_naive)),
+        ("naive-datetime/iso", lit("datetime", d_naive.isoformat()), d_naive.isoformat()),
+        ("date/str", lit("date", day.isoformat()), str(day)), ("date/repr", lit("date", day.isoformat()), repr(day)),
+        ("time/str", lit("time", tm.isoformat()), str(tm)), ("time/repr", lit("time", tm.isoformat()), repr(tm)),
+        ("decimal/str", lit("decimal", "1.5"), "1.5"), ("decimal/float", lit("decimal", "1.5"), 1.5),
+        ("decimal/repr", lit("decimal", "1.5"), repr(Decimal("1.5"))),
+        ("tuple/str", lit("tuple", [1, 2]), "(1, 2)"), ("tuple/text", lit("tuple", ["a"]), "('a',)"),
+        ("set/str", lit("set", [1]), "{1}"), ("bytes/repr", lit("bytes", "78"), "b'x'"), ("bytes/text", lit("bytes", "78"), "x"),
+        ("object-key-order", {"a": 1, "b": 2}, {"b": 2, "a": 1}),
+        # NOT in the pool, because the unchanged engine gives them one etag although they are decided differently
+        # (reported to the maintainers of this check's findings list; json.dumps prints a tuple as a list and an int key
+        # as a str key): ("tuple/list", (1, 2), [1, 2]), ({1: "x"}, {"1": "x"}); and an object-valued resource
+        # constraint in another key order (class of F23/F16).
+    ]
+
+
+def tag_policy(site, literal):
+    if site == "cond":
+        rule = _rule("g1", "permit", condition={"==": [{"attr": "resource.attrs.v"}, literal]})
+    elif site == "in":
+        rule = _rule("g1", "permit", condition={"in": [{"attr": "resource.attrs.v"}, [literal, "zzz"]]})
+    elif site == "rid":
+        rule = _rule("g1", "permit", resource={"type": "doc", "id": literal})
+    elif site == "rattr":
+        rule = _rule("g1", "permit", resource={"type": "doc", "attrs": {"v": literal}})
+    elif site == "before":
+        rule = _rule("g1", "permit", condition={"before": [{"attr": "context.now"}, literal]})
+    else:  # obligation attrs
+        rule = _rule("g1", "permit", obligations=[{"type": "require_level", "attrs": {"min": literal}}])
+    return {"algorithm": "deny-overrides", "rules": [rule]}
+
+
+def tag_pairs():
+    for name, a, b in tag_literal_pairs():
+        for site in ("cond", "in", "rid", "rattr", "before", "obl"):
+            if name == "object-key-order" and site in ("rid", "rattr"):
+                continue  # that is the class of F23 (C17) / F16: lax str() of an object-valued constraint
+            yield {"kind": "tagpair", "fam": "tag_inj", "name": name, "site": site, "lits": True,
+                   "P": tag_policy(site, a), "Q": tag_policy(site, b), "values": [a, b]}
+    # the same rule with its keys in another order: one etag by design, one decision
+    r = _rule("g1", "permit", condition={"==": [{"attr": "resource.attrs.v"}, 1]})
+    yield {"kind": "tagpair", "fam": "tag_inj", "name": "rule-key-order", "site": "rule", "lits": True,
+           "P": {"algorithm": "deny-overrides", "rules": [r]},
+           "Q": {"rules": [dict(reversed(list(r.items())))], "algorithm": "deny-overrides"}, "values": [1, 1.0]}
+
+
+def same_json_value(p, q):
+    """equal as JSON values up to the key order of objects, types exact (1, 1.0, True differ; a literal that is not
+    JSON is itself and nothing else)"""
+    return canon(p) == canon(q)
+
+
+def separating_histories(pair):
+    """two engines holding P and Q share one cache; one evaluates a request, then the other: candidates"""
+    vals = list(pair.get("values") or [])
+    extra = [1, "1", 1.0, True, "a", ["a"], None, lit("datetime", "2026-06-01T12:00:00+00:00"), "2026-06-01T12:00:00+00:00", 2, 3]
+    out = []
+    for v in vals + [x for x in extra if all(ordered(x) != ordered(y) for y in vals)]:
+        reqs = [mkreq(rattrs={"v": v}), mkreq(ctx={"now": v, "auth_level": v})]
+        if not isinstance(v, (dict, list)):
+            reqs.append(mkreq(rid=v, ctx={"auth_level": 2}))
+        for r in reqs:
+            for strict in (False, True):
+                for first in (0, 1):
+                    out.append({"fam": "tag_inj-search", "lits": True, "cache": ["lru", BIG], "facts": [],
+                                "g1": {"strict": strict, "policy": pair["P"], "ttl": None},
+                                "g2": {"strict": strict, "policy": pair["Q"], "ttl": None},
+                                "h": [["e", first, r], ["e", 1 - first, r], ["e", first, r]]})
+    return out
+
+
+def check_tagpairs(chk, pairs, replay=False):
+    from rbacx.core.engine import Guard
+
+    for pr in pairs:
+        P, Q = materialise(pr["P"]), materialise(pr["Q"])
+        e1, e2 = Guard(P).policy_etag, Guard(Q).policy_etag
+        chk.mark(("tagpair", pr.get("name"), pr.get("site")), bool(e1) and bool(e2))
+        chk.count("fam:tag_inj")
+        if not e1 or not e2:
+            chk.count("tag_inj:no_etag_(caching_off)")
+            continue
+        if e1 != e2:
+            chk.count("tag_inj:distinct_etags")
+            continue
+        if same_json_value(pr["P"], pr["Q"]):
+            chk.count("tag_inj:one_etag_for_one_JSON_value_(key_order)")
+            continue
+        # two policies that are not the same JSON value have ONE etag: the hypothesis tag_inj of c08_transparent fails on
+        # the implementation.  Look for the failing input.
+        chk.count("tag_inj:REFUTED")
+        before = len(chk.violations)
+        check_cases(chk, separating_histories(pr), replay=replay)
+        if len(chk.violations) == before:
+            chk.corr_break("hypothesis tag_inj of c08_transparent / c08_invariant fails on the implementation: two policies that "
+                           "are not the same JSON value get one policy_etag (%s literal %s at %s); no request of the search "
+                           "separated them" % (pr.get("name"), json.dumps(pr.get("values"), default=repr)[:120], pr.get("site")),
+                           {k: v for k, v in pr.items() if not k.startswith("_")}, impl={"etag": e1}, theorems=THEOREMS)
+
+
 def corpus_cases():
     d = lib.VERIF / "corpus" / "C08"
     out = []
@@ -1012,9 +1275,22 @@ def run(chk):
                 "set B, clear, tick}: all histories of length <= 3 (thorough <= 4) for 4 one-engine configurations (LRU(2), "
                 "LRU(64) async initially down, dict, pickling strict) and 3 two-engine configurations sharing the cache (same "
                 "policy text with another hierarchy; another policy), plus seeded random histories of length 6-40. "
+                "NEAR-DUPLICATE TEXT: %d pairs of different values that a normalising key function might identify (surrogate-escaped "
+                "and lone-surrogate spellings, NFC/NFD/NFKC, case, leading/trailing/inner/no-break whitespace, NUL, full-width "
+                "digits, zero-width characters, BOM, escaped text, prefixes, bytes-repr look-alikes, quoted / JSON-structure "
+                "look-alikes, 300-character strings differing in the last character, homoglyphs, str vs None/True/1/1.0/[..]) x 8 "
+                "positions (resource id / attribute / type, subject id / attribute, role name, context value, action) with a policy "
+                "that permits exactly the first value by == / exact match, both orders, one and two guards, four caches (pairs "
+                "with text outside printable ASCII are judged on the implementation alone). THE HYPOTHESIS tag_inj ON THE "
+                "IMPLEMENTATION: %d policy pairs differing in one near-duplicate literal (1/1.0/True/'1', None/'None', 'a'/['a'], "
+                "NFC/NFD, datetime/date/time/Decimal/tuple/set/bytes literal vs the strings str(), repr(), isoformat() spell them, "
+                "object key order) at 6 sites (== operand, in-list member, resource id, resource attribute constraint, before "
+                "operand, obligation attrs): Guard(p).policy_etag of both; one etag (not None) for two policies that are not the "
+                "same JSON value refutes tag_inj, and then histories 'one engine evaluates, the other sharing the cache evaluates "
+                "the same request' are searched for the failing input. "
                 "Every evaluation is compared with a fresh uncached Guard holding the same current policy and the same collaborator "
                 "objects (all Decision fields, type-exact) and, where the model speaks, with the model (hit flag + Decision). non-trivial = at least one "
-                "evaluation of the history was served from the cache; distinct = distinct (configuration, history)" % len(REQS))
+                "evaluation of the history was served from the cache; distinct = distinct (configuration, history)" % (len(REQS), len(TEXT_PAIRS), sum(1 for _ in tag_pairs())))
     chk.assumptions = [
         "requests and policies are JSON values (None, bool, int, float, str, list, dict with str keys) in the generated families; "
         "the corpus also replays a history with a datetime-valued context entry (fixed finding F26): cached and uncached "
@@ -1029,7 +1305,12 @@ def run(chk):
         "(the Coq model has no resolver; Engine.build_env takes the resolver's answer as an argument)",
         "time.monotonic is scripted (constant during an operation); clock readings and TTLs are small integers, exact in floats",
         "sequential histories: no set_policy runs during an evaluation (C09 covers the races)",
-        "policy tags: sha3_256 is assumed collision-free on the policies of a history (hypothesis tag_inj of the theorems)",
+        "policy tags: hypothesis tag_inj of the theorems (distinct policies of a history have distinct etags) is TESTED on the "
+        "implementation over the literal-pair pool above; sha3_256 itself is assumed collision-free. Policies equal up to the key "
+        "order of objects are one JSON value and share an etag by design. Left out of the pool because the UNCHANGED engine already "
+        "gives them one etag although they are decided differently (Python-built policies only; reported, not listed): a tuple "
+        "literal vs the list with the same items, an int dict key vs the str key, and an object-valued resource constraint in "
+        "another key order (the class of F23/F16 seen from the policy side)",
     ]
     chk.extra["F16_switch"] = "model run with sort_keys normalisation = what the implementation shows on the probe"
     # 0. corpus first
@@ -1069,7 +1350,9 @@ def run(chk):
     chk.exhaustive = not stop_early(chk)
     chk.extra["enumerated_complete_to_length"] = ({"one_guard": 3, "two_guards": 2, "resolver": 3} if quick
                                                   else {"one_guard": 5, "two_guards": 4, "resolver": 4})
-    for gen in (pair_cases(quick), replacement_cases()):
+    if not stop_early(chk):
+        check_cases(chk, list(tag_pairs()))
+    for gen in (text_cases(), pair_cases(quick), replacement_cases()):
         for ch in chunks(gen, 6000):
             if not stop_early(chk):
                 check_cases(chk, ch)
